@@ -328,6 +328,9 @@ func (f *File) seekWithoutLocking(offset int64, whence int) (int64, error) {
 		}
 
 		go func() {
+			// Always end the stream, even if the restore finished without ever opening the destination
+			defer writer.Close()
+
 			if err := f.readOps.Restore(
 				func(path string, mode fs.FileMode) (io.WriteCloser, error) {
 					return writer, nil
@@ -521,6 +524,9 @@ func (f *File) Read(p []byte) (n int, err error) {
 		}
 
 		go func() {
+			// Always end the stream, even if the restore finished without ever opening the destination
+			defer writer.Close()
+
 			if err := f.readOps.Restore(
 				func(path string, mode fs.FileMode) (io.WriteCloser, error) {
 					return writer, nil
